@@ -236,8 +236,8 @@ def plan(tier, seed, excl):
     q = tier == 'quick'
     t = [('sched2', {'shard': i, 'of': 16, 'switches': 4 if q else 3}) for i in range(16)]
     t += [('sched3', {'shard': i, 'of': 4, 'switches': 3}) for i in range(4)]
-    t += [('sched-random', {'shard': i, 'n': 150 if q else 6000}) for i in range(4 if q else 12)]
-    t += [('history-small', {'shard': i, 'n': 120 if q else 2500}) for i in range(4)]
+    t += [('sched-random', {'shard': i, 'n': 300 if q else 6000}) for i in range(8 if q else 12)]
+    t += [('history-small', {'shard': i, 'n': 200 if q else 2500}) for i in range(8)]
     t += [('history-real', {'variant': i}) for i in range(2 if q else 6)]
     t.append(('history-targets', {}))
     return t
